@@ -223,7 +223,7 @@ class StmtMixin:
     def note_iter(self, d, init, name):
         try: t = self.tyq(d['type'])
         except Unsupported: return
-        if t.kind == 'iter':
+        if t.kind in ('iter', 'riter'):
             c = self.find_container_in(init)
             if c is not None: self.iter_of[d['id']] = c
             ct = self.find_container_type_in(init)
